@@ -222,7 +222,7 @@ fn mutant_case(u: &mut Choices, sz: Size) -> CaseResult {
 // ------------------------------------------------------------------------------------------------
 // stage: parser-accepted but ill-typed programs x awkward documents
 
-const ILL_TYPED: [&str; 45] = [
+const ILL_TYPED: [&str; 47] = [
     "rule r { this[ a == 1 ] exists }",
     "rule r { a[0][ k == 1 ] exists }",
     "rule r { a.*[ k == 1 ][ k == 1 ] !empty }",
@@ -259,6 +259,8 @@ const ILL_TYPED: [&str; 45] = [
     "rule r { a.%nosuchvar exists }",
     "let k = a\nrule r { b.%k exists }",
     "let k = [1, 2]\nrule r { a.%k exists }",
+    "let k = items[*]\nrule r { c.%k[0] exists\n c.%k[1] exists\n c.%k[2] exists\n c.%k[3] exists\n c.%k[-2] exists }",
+    "let k = items[*]\nrule r { c.%k[*] exists\n c.%k.a exists\n some c.%k.* == 1 }",
     "rule f(p) { %p == 1 }\nrule r { f(a, b) }",
     "rule f(p, q) { %p == %q }\nrule r { f(a) }",
     "rule r { nosuchrule }",
@@ -277,6 +279,8 @@ fn awkward_docs() -> Vec<String> {
         "{\"a\": \"1\", \"b\": [1, 2]}".into(),
         "{\"a\": {\"k\": {\"k\": 1}}, \"b\": null}".into(),
         "{\"a\": 1}".into(),
+        "{\"c\": {\"a\": 1, \"k\": {\"a\": 2}}, \"items\": [\"a\", \"k\"], \"a\": \"x\"}".into(),
+        "{\"c\": {\"a\": 1}, \"items\": [\"a\", \"k\", \"zz\"]}".into(),
         "{\"a\": \"aaaaaaaaaaaaaaaaaaaaaaaaaaaa!\", \"b\": [\"aaaaaaaaaaaaaaaaaaaaaaaaaaaa!\"]}".into(),
         "{}".into(),
         "[]".into(),
@@ -360,6 +364,11 @@ fn process_inputs() -> Vec<(&'static str, Vec<String>, String, String)> {
         ("self-recursive rule", val.clone(), "rule a {\n  a\n}\n".to_string(), "{\"x\": 1}".to_string()),
         ("mutually recursive rules", vals.clone(), "rule a {\n  b\n}\nrule b {\n  not a\n}\n".to_string(), "{\"x\": 1}".to_string()),
         ("recursive rule in a when condition", val.clone(), "rule a when a {\n  x == 1\n}\n".to_string(), "{\"x\": 1}".to_string()),
+        ("self-referential variable (function)", val.clone(), "let x = to_upper(%x)\nrule r {\n  %x exists\n}\n".to_string(), "{\"x\": \"s\"}".to_string()),
+        ("mutually referential variables", vals.clone(), "let a = %b\nlet b = %a\nrule r {\n  %a exists\n}\n".to_string(), "{\"x\": 1}".to_string()),
+        ("self-referential variable (query)", val.clone(), "let a = %a.c\nrule r {\n  %a exists\n}\n".to_string(), "{\"a\": {\"c\": 1}}".to_string()),
+        ("self-referential rule-level variable", val.clone(), "rule r {\n  let a = %a\n  %a exists\n}\n".to_string(), "{\"a\": 1}".to_string()),
+        ("self-referential block-level variable", val.clone(), "rule r {\n  x {\n    let a = %a.b\n    %a exists\n  }\n}\n".to_string(), "{\"x\": {\"b\": 1}}".to_string()),
         ("recursive parameterised rule", val.clone(), "rule f(p) {\n  f(%p)\n}\nrule r {\n  f(x)\n}\n".to_string(), "{\"x\": 1}".to_string()),
         ("list literal nested 64 deep", vals.clone(), format!("rule r {{\n  x == {}\n}}\n", deep("[", "]", 64)), "{\"x\": 1}".to_string()),
         ("map literal nested 64 deep", val.clone(), format!("rule r {{\n  x == {}\n}}\n", deep("{\"k\": ", "}", 64)), "{\"x\": 1}".to_string()),
@@ -435,7 +444,7 @@ pub fn replay(case: &J) -> CaseResult {
 
 pub fn run(tier: Tier, seed: u64) -> i32 {
     let spec = EvidenceSpec {
-        rule: "Stage 'ill-typed': 45 parser-accepted but ill-typed program shapes (filters after this / an index / another filter, map-key filters, unary checks on literal variables, function arguments of the wrong type or from empty selections, look-around / back-reference regexes, huge and negative indices, interpolation of non-strings, wrong arity, unknown rules and functions, reversed ranges) x 29 awkward documents (scalars and lists at the root, CloudFormation- and Terraform-plan-shaped documents that are slightly wrong, multi-byte text around byte 100 in malformed data, comment-only, multi-document, tags, aliases, complex keys, overflowing numbers, BOM, tabs). Stage 'mutants': generated wide programs and documents with 1-3 token/byte mutations (truncate, delete, duplicate, swap, splice, dictionary insert, bracket/quote flip, nesting up to 48). Stage 'raw': token soup for every file role. Each input goes through run_checks (verbose and not), parse-tree (json, yaml), validate --payload in six output modes, and for a share also -r/-d files, stdin data, -i, and `test` in three formats (the data text doubling as spec and parameter file): any panic is a violation; a rules text rejected by parse-tree must make validate exit 5 with `line .. column ..` and no evaluated rule. Stage 'process': recursion, 48-64-deep nesting and rulegen / payload edge cases through the real binary: the process must terminate normally. Non-trivial: the rules text is accepted by the parser or within 3 edits of an accepted one; distinct by hash of the texts.".into(),
+        rule: "Stage 'ill-typed': 47 parser-accepted but ill-typed program shapes (filters after this / an index / another filter, map-key filters, unary checks on literal variables, function arguments of the wrong type or from empty selections, look-around / back-reference regexes, huge and negative indices, interpolation of non-strings, wrong arity, unknown rules and functions, reversed ranges) x 31 awkward documents (scalars and lists at the root, CloudFormation- and Terraform-plan-shaped documents that are slightly wrong, multi-byte text around byte 100 in malformed data, comment-only, multi-document, tags, aliases, complex keys, overflowing numbers, BOM, tabs). Stage 'mutants': generated wide programs and documents with 1-3 token/byte mutations (truncate, delete, duplicate, swap, splice, dictionary insert, bracket/quote flip, nesting up to 48). Stage 'raw': token soup for every file role. Each input goes through run_checks (verbose and not), parse-tree (json, yaml), validate --payload in six output modes, and for a share also -r/-d files, stdin data, -i, and `test` in three formats (the data text doubling as spec and parameter file): any panic is a violation; a rules text rejected by parse-tree must make validate exit 5 with `line .. column ..` and no evaluated rule. Stage 'process': recursion, 48-64-deep nesting and rulegen / payload edge cases through the real binary: the process must terminate normally. Non-trivial: the rules text is accepted by the parser or within 3 edits of an accepted one; distinct by hash of the texts.".into(),
         assumptions: vec!["nesting depth is bounded by 64 as the statement allows".into(), "in-process calls are wrapped in catch_unwind; inputs that may exhaust the stack (recursion, deep nesting) go through the real binary".into()],
     };
     execute("C08", tier, seed, spec, &replay, &|run: &Session| {
@@ -450,4 +459,26 @@ pub fn run(tier: Tier, seed: u64) -> i32 {
             run.inconclusive(format!("{} process-level case(s) hit the 90 s watchdog", wd));
         }
     })
+}
+
+/// entry for the libFuzzer text targets: Err(description) on a violation
+pub fn fuzz_exercise(rules: &str, data: &str, with_files: bool) -> Result<(), String> {
+    // recorded finding F33 (exponential parse time of nested filters) is excluded by construction
+    let mut depth = 0i32;
+    let mut max_depth = 0i32;
+    for c in rules.chars() {
+        match c {
+            '[' => {
+                depth += 1;
+                max_depth = max_depth.max(depth)
+            }
+            ']' => depth -= 1,
+            _ => {}
+        }
+    }
+    if max_depth > 9 || rules.matches('[').count() > 40 {
+        return Ok(());
+    }
+    let inp = Input { rules: rules.to_string(), data: data.to_string() };
+    exercise(&inp, with_files).map(|_| ()).map_err(|(m, s)| format!("{} [{}]", m, s))
 }
